@@ -1870,9 +1870,9 @@ matrix_mul_generic(PyObject *self, PyObject *other, int inplace)
   int id_other = get_id(other, (Matrix_Check(other) ? 0 : 1));
   int id = MAX(id_self,id_other);
 
-  if (inplace && (id != id_self || (MAT_LGT(self)==1 &&
-      (Matrix_Check(other) && MAT_LGT(other)!=1)) ||
-      (MAT_LGT(self)>1 && (Matrix_Check(other) && MAT_LGT(other)>1))) )
+  /* in-place products are scalar products (also for empty matrices) */
+  if (inplace && (id != id_self ||
+      (Matrix_Check(other) && MAT_LGT(other)!=1)) )
     PY_ERR_TYPE("invalid inplace operation");
 
   /* first operand is a scalar */
